@@ -49,14 +49,14 @@ func judge(sc *scen.Scenario, res *scen.Result, runErr error) (string, map[strin
 		conn int
 	}
 	perConn := map[int64]*last{} // one stream per session id: a reconnection continues the same stream
-	acked := map[int64]bool{}
+	acked := map[int64]int{}     // msg_id -> position in the server's log of the latest acknowledgement naming it
 	for _, ev := range res.Events {
 		switch ev.Kind {
 		case "violation":
 			return "violation", feats, fmt.Errorf("server-side validation: %s", ev.Note)
 		case "ack":
 			for _, id := range ev.IDs {
-				acked[id] = true
+				acked[id] = ev.Seq
 			}
 		case "enc":
 			l := perConn[ev.Session]
@@ -106,9 +106,14 @@ func judge(sc *scen.Scenario, res *scen.Result, runErr error) (string, map[strin
 			if ev.InCont {
 				feats["content-related-in-container"] = true
 			}
-			if !acked[ev.MsgID] {
+			if ev.Note == "redelivered" {
+				feats["content-related-redelivered"] = true
+			}
+			// acknowledged = an acknowledgement naming it arrived after this delivery (a message the server delivers again
+			// after the first acknowledgement wants another one)
+			if acked[ev.MsgID] < ev.Seq {
 				if res.Stall != nil && (res.Stall.Verdict == "IDLE" || res.Stall.Verdict == "STALL") {
-					return "violation", feats, fmt.Errorf("content-related server message %d (%s, in container: %v) was never acknowledged; receive loop %s", ev.MsgID, ev.Ctor, ev.InCont, res.Stall.Verdict)
+					return "violation", feats, fmt.Errorf("content-related server message %d (%s, in container: %v, %s) was never acknowledged; receive loop %s", ev.MsgID, ev.Ctor, ev.InCont, ev.Note, res.Stall.Verdict)
 				}
 				return "inconclusive", feats, fmt.Errorf("INFRA: message %d unacknowledged but the client is not quiescent", ev.MsgID)
 			}
@@ -124,7 +129,7 @@ func judge(sc *scen.Scenario, res *scen.Result, runErr error) (string, map[strin
 
 func gen(t *rapid.T) (*scen.Scenario, []string) {
 	s := rapidSource{t}
-	sc := scen.NewResumed(s)
+	sc := scen.NewSession(s)
 	ncallers := rapid.IntRange(1, run.Pick(6, 8)).Draw(t, "ncallers")
 	callers := scen.Callers(s, ncallers, 3, 1+rapid.IntRange(0, 1000).Draw(t, "base"))
 	var steps []scen.Step
@@ -178,6 +183,14 @@ func gen(t *rapid.T) (*scen.Scenario, []string) {
 		steps = append(steps, scen.Step{Op: "ping"})
 	}
 	steps = append(steps, scen.Step{Op: "await-calls"}, scen.Step{Op: "probe"}, scen.Step{Op: "await-acks"})
+	if rapid.IntRange(0, 2).Draw(t, "redeliver") == 0 {
+		// the server behaves as if the acknowledgement of its last content-related message had not arrived: it delivers
+		// the message again (same msg_id), one to three times
+		for k := rapid.IntRange(1, 3).Draw(t, "redeliveries"); k > 0; k-- {
+			steps = append(steps, scen.Step{Op: "push", Push: &scen.PushSpec{Kind: "redeliver"}}, scen.Step{Op: "await-acks"})
+		}
+		cls = append(cls, "server-history:redelivery-after-the-acknowledgement")
+	}
 	if rapid.IntRange(0, 3).Draw(t, "reconnect") == 0 {
 		// the server closes the connection; the same session goes on over a new one
 		more := scen.Callers(s, rapid.IntRange(1, 3).Draw(t, "ncallers2"), 2, 5000+rapid.IntRange(0, 1000).Draw(t, "base2"))
